@@ -679,6 +679,24 @@ func (e *aEnv) step(st aStep, idx int) (res aRes) {
 				}(s2)
 			}
 		}
+	case "refpages":
+		// GET st.Path (a referrers listing), then ask for the pages st.Names of exactly that response: cache=<digest of the body>
+		cur := st
+		cur.Op, cur.Method = "http", "GET"
+		first := e.doHTTP(cur, -1)
+		out := []aRes{first}
+		body, _ := base64.StdEncoding.DecodeString(first.B64)
+		dig := digest.Canonical.FromBytes(body)
+		for _, pg := range st.Names {
+			o := cur
+			q := "cache=" + url.QueryEscape(dig.String()) + "&page=" + url.QueryEscape(pg)
+			if st.Query != "" {
+				q = st.Query + "&" + q
+			}
+			o.Query = q
+			out = append(out, e.doHTTP(o, -1))
+		}
+		res.Par = [][]aRes{out}
 	case "reflock":
 		// the steps of Par[0] run while the referrers mutex of the server is held - the situation of a request that arrives while
 		// another client's artifact push holds it: an artifact push started with "async" inside gets as far as the mutex
